@@ -846,8 +846,42 @@ func run(raw json.RawMessage) lib.Case {
 		class += "+cut"
 		obs["cut"] = w.failed
 	}
+	if w.lateArrival() {
+		// known finding C11-N2: a tree stored by a response that nothing uses afterwards is never released
+		class += "+latearrival"
+	}
 	return lib.Case{Coq: coq, Class: class, Input: input{Name: in.Name, Steps: executed, Drain: in.Drain}, Obs: obs,
 		Nontrivial: len(w.acts) > 3, Key: strings.Join(w.acts, ";")}
+}
+
+// lateArrival tells whether some tree is stored at the end, with no removal pending, because a
+// tree response stored it and no instance was created on it and no local registration followed
+func (w *world) lateArrival() bool {
+	for i, tr := range w.trees {
+		if w.ovX.VerifTreeState(tr.ID) != 2 || w.ovX.VerifRemovalPending(tr.ID) {
+			continue
+		}
+		last := -1
+		for j, a := range w.acts {
+			if a == fmt.Sprintf("TreeArrive %d", i) {
+				last = j
+			}
+		}
+		if last < 0 {
+			continue
+		}
+		used := false
+		for _, a := range w.acts[last+1:] {
+			if strings.HasPrefix(a, fmt.Sprintf("LocalSet (%d,", i)) || strings.HasPrefix(a, fmt.Sprintf("MsgDeliver (%d,", i)) ||
+				strings.HasPrefix(a, fmt.Sprintf("LocalCreate (%d,", i)) || a == fmt.Sprintf("LocalTree %d", i) {
+				used = true
+			}
+		}
+		if !used {
+			return true
+		}
+	}
+	return false
 }
 
 // randomWalk performs n random applicable steps on trees 0 and 1 and then settles every
@@ -1006,6 +1040,10 @@ func templates(t int) []input {
 			st("trydelete", t), st("req", t), st("lookup", t, 2), st("deliver", t, 2), st("done", t, 2), st("tdelete", t), st("req", t)}},
 		{Name: "two-first-messages", Drain: true, Steps: []step{st("tree", t), st("stalefirst", t, 1), st("req", t),
 			st("trydelete", t), st("req", t)}},
+		// known finding C11-N2: the request of a parked message's thread is registered only after a local
+		// run has served the message and the tree has been released; the response stores it for good
+		{Name: "late-response", Drain: true, Steps: []step{st("lookup", t, 1), st("misscheck", t), st("run", t, 2),
+			st("done", t, 2), st("done", t, 1), st("tdelete", t), st("missreg", t), st("arrive", t), st("req", t)}},
 		{Name: "unsolicited-tree", Drain: true, Steps: []step{st("arrive", t), st("req", t), st("lookup", t, 1), st("misscheck", t),
 			st("missreg", t), st("lookup", t, 2), st("misscheck", t), st("arrive", t), st("done", t, 1), st("done", t, 2)}},
 	}
@@ -1022,9 +1060,10 @@ func generate(rng *rand.Rand, tier string) []interface{} {
 			ins = append(ins, tpl)
 		}
 		// two templates on different trees, interleaved
-		for n := 0; n < 4*reps; n++ {
-			a := templates(0)[rng.Intn(8)]
-			b := templates(1 + rng.Intn(2))[rng.Intn(8)]
+		for n := 0; n < 12; n++ {
+			ta, tb := templates(0), templates(1+rng.Intn(2))
+			a := ta[rng.Intn(len(ta))]
+			b := tb[rng.Intn(len(tb))]
 			var steps []step
 			i, j := 0, 0
 			for i < len(a.Steps) || j < len(b.Steps) {
